@@ -46,3 +46,26 @@ Theorem pass3_preserves st root st' : tables_ok st -> pass3 true (fun l => l) st
 Proof.
   intros Hok H. apply (gr_val _ _ (proj2 (pass3_grow true (fun l => l) (fun l f Hf => Hf) st root st' Hok H))).
 Qed.
+
+(* "every d4_ok file loads to a WF vector with the right count" is false for the loader as it is:
+   a feature that is mentioned only below a dead branch is neither treated as free (the
+   occurrence table is filled while reading) nor left in the vector (the branch is removed).
+   o 1 0 / a 2 0 / f 3 0 / t 4 0 / 2 3 0 / 1 2 1 2 0 / 1 4 -1 0  with 2 features denotes
+   "not x1" (2 models), the loaded vector [L -1; A 0; O 1] has count 1. *)
+Definition dead_only_file : list d4token :=
+  [DOr; DAnd; DFalse; DTrue; DEdge 2 3 []; DEdge 1 2 [1; 2]%Z; DEdge 1 4 [-1]%Z].
+
+Theorem loader_wf_refuted : exists toks n C n',
+  d4_ok toks /\ load_d4 toks n = Some (C, n') /\ check_wf C n' = false /\
+  root_count C <> Z.of_nat (length (d4_models toks n')).
+Proof.
+  exists dead_only_file, 2%nat, [Lit (-1); And [0%nat]; Or [1%nat]], 2%nat.
+  split; [split|split; [|split]].
+  - intros from to fs H.
+    repeat (destruct H as [H|H]; [try discriminate; injection H as <- <- <-; repeat constructor; discriminate|]).
+    destruct H.
+  - eexists. vm_compute. reflexivity.
+  - vm_compute. reflexivity.
+  - vm_compute. reflexivity.
+  - vm_compute. discriminate.
+Qed.
